@@ -89,6 +89,42 @@ CLAIMED["C16"] = dict(
     note=LOOP_NOTE + "Precondition params.rho > 0. ParetoDecrease's bound (norms, divisions) enters the model as data.",
     technique=LOOP_TECH, ref="4/C16")
 
+CLAIMED["C01"] = dict(
+    text="Theorems for an arbitrary problem (arbitrary callbacks, dimensions, bounds incl. infinite, every row kind) and "
+         "arbitrary integer weights: if the internal (scaled + slack) iterate has total_res <= tol and lies in the internal "
+         "box then the point returned by restore_sol satisfies the user's bounds exactly, l - tol*2^-w <= c(x) <= u + "
+         "tol*2^-w row by row, |grad f + J^T y + d|_j <= tol*2^(v_j - o), y_i zero to tol*2^(w_i - o) away from the slack "
+         "bounds and of the right sign at them, d_j zero away from bounds and of the documented sign at them; and the loop "
+         "returns Optimal only with total_res <= opt_tol, for every oracle trace. Partial: float rounding of the residual; "
+         "the flow-integration solver is not covered by the theorems (known finding F9 is about it).",
+    note=BASE_NOTE + "Exact arithmetic over Q; ldexp modelled as multiplication by 2^k; NaN-free comparisons.",
+    technique="Coq proof: scalar KKT lemmas lifted through the slack embedding and the power-of-two scaling (lra/nra over Q) "
+              "+ loop induction; vm_compute differential correspondence (transform, iterate, loop units)",
+    ref="4/C01")
+CLAIMED["C13"] = dict(
+    text="The Gallina definitions of the augmented Lagrangian and its derivatives, violations, bound multipliers, "
+         "stationarity residual, local infeasibility test, the implicit-Euler residual function (both classes), its active "
+         "sets, projection and generalised Jacobian ARE the independent dense reference; they are tied to pygradflow by "
+         "exact equality on every run (points inside/on/outside bounds, all masks, nonlinear constraints, rho > 0, tau "
+         "variants). Theorems: projection lands in the box on marked components and is the identity elsewhere and on "
+         "points inside; unmarked components are within 1e-8 of the box; scaled projection = lambda * projection; bound "
+         "multiplier signs; stationarity residual vanishes exactly on the normal cone of the fattened box; total_res splits.",
+    note=BASE_NOTE,
+    technique="Coq proof (order lemmas over Q lifted to lists) + vm_compute differential correspondence (iterate, implicit units)",
+    ref="4/C13")
+CLAIMED["C14"] = dict(
+    text="Theorems for every linear H0, J, J^T, active set, lambda > 0, rho > 0 and residual: a solution of the extended / "
+         "asymmetric system, post-processed by dy = fact*(sy - rho*b2), solves the standard Newton system with Hessian "
+         "H0 + rho J^T J, and conversely; the symmetric reduced system is equivalent to the extended one; one step is exact "
+         "when the residual is affine along it; Simplified/Full/ActiveSet variants take the same first step. The list-level "
+         "systems each solver assembles (matrix, rhs, post-processing, clipping, when each Newton variant refreshes what) are "
+         "tied to the code at the linear-solver interface by exact correspondence. Partial: the step from list-level rows "
+         "to the abstract row equations is by inspection; 'up to the linear solver's tolerance' is C17.",
+    note=BASE_NOTE,
+    technique="Coq proof (field/ring algebra over abstract linear operators) + vm_compute differential correspondence of the "
+              "assembled systems with a scripted linear solver",
+    ref="4/C14")
+
 PENDING = {}
 
 NOT_APPLICABLE = {
